@@ -6,6 +6,7 @@ import (
 	"errors"
 	"fmt"
 	"github.com/metal-toolbox/audito-maldito/internal/verif/mc"
+	"io"
 	"sort"
 	"strings"
 	"time"
@@ -28,6 +29,17 @@ const (
 
 var errInjected = errors.New("injected write failure")
 
+// dressedErr is the injected failure dressed up as what a real sink might report: it still IS errInjected and it
+// also matches (errors.Is) a sentinel such as context.Canceled or io.EOF. Which error the output reports must
+// not decide whether it is reported.
+type dressedErr struct{ as error }
+
+func (d dressedErr) Error() string   { return "sink: " + d.as.Error() + " (" + errInjected.Error() + ")" }
+func (d dressedErr) Is(t error) bool { return t == errInjected || t == d.as }
+func (d dressedErr) Unwrap() error   { return d.as }
+
+var failKinds = []error{errInjected, dressedErr{context.Canceled}, dressedErr{io.EOF}, dressedErr{context.DeadlineExceeded}}
+
 // recorder is the auditevent.EventEncoder behind the real EventWriter: it
 // keeps the pointer it was given (C05 compares identity) and a deep copy with
 // the exact strings (JSON would coerce invalid UTF-8).
@@ -36,11 +48,12 @@ type recorder struct {
 	copies []auditevent.AuditEvent
 	other  []string
 	fail   bool
+	kind   int // which of failKinds a failing Encode returns
 }
 
 func (r *recorder) Encode(v any) error {
 	if r.fail {
-		return errInjected
+		return failKinds[r.kind%len(failKinds)]
 	}
 	e, ok := v.(*auditevent.AuditEvent)
 	if !ok || e == nil {
